@@ -49,6 +49,8 @@ func (s *c37Streamer) Ping(_ context.Context, a ma.Multiaddr) (time.Duration, er
 }
 
 type c37Node struct {
+	sharedKadTouched bool
+
 	svc  *Service
 	kad  *kademlia.Kad
 	book addressbook.Interface
@@ -67,31 +69,61 @@ func c37Overlay(i int) boson.Address {
 	return boson.NewAddress(b)
 }
 
-func c37NewNode(x *mc.X, sr p2p.StreamerPinger) *c37Node {
+func c37BuildKad(x *mc.X, ab addressbook.Interface, disc *Service) (*kademlia.Kad, *shed.DB) {
 	db, err := shed.NewDB("", &shed.Options{Driver: c37Driver + `:{"WriteBuffer":16384,"BlockCacheCapacity":16384}`})
 	x.NoErr(err, "shed")
-	logger := logging.New(io.Discard, 0)
-	ab := addressbook.New(mockstate.NewStateStore())
-	svc := New(sr, ab, 0, logger)
 	ppm := pingpongmock.New(func(context.Context, boson.Address, ...string) (time.Duration, error) { return 0, nil })
-	kad, err := kademlia.New(c37Base, ab, svc, p2pmock.New(), ppm, nil, nil, db, logger, subscribe.NewSubPub(),
+	kad, err := kademlia.New(c37Base, ab, disc, p2pmock.New(), ppm, nil, nil, db, logging.New(io.Discard, 0), subscribe.NewSubPub(),
 		kademlia.Options{BinMaxPeers: 5, NodeMode: aurora.NewModel().SetMode(aurora.FullNode)})
 	x.NoErr(err, "kademlia")
-	svc.SetAddPeersHandler(kad.AddPeers)
-	svc.SetConfig(Config{Kad: kad, Base: c37Base, AllowPrivateCIDRs: false})
+	for i := 0; i < 4; i++ {
+		kad.AddPeers(c37Overlay(i))
+	}
+	return kad, db
+}
+
+func c37Book(x *mc.X) addressbook.Interface {
+	ab := addressbook.New(mockstate.NewStateStore())
 	// a few honest known peers with address book entries
 	for i := 0; i < 4; i++ {
 		u, _ := ma.NewMultiaddr(fmt.Sprintf("/ip4/8.8.8.%d/tcp/7070", i+1))
 		o := c37Overlay(i)
 		x.NoErr(ab.Put(o, aurora.Address{Overlay: o, Underlay: u, Signature: []byte{1, 2, 3}}), "book put")
-		kad.AddPeers(o)
 	}
-	return &c37Node{svc: svc, kad: kad, book: ab, db: db}
+	return ab
+}
+
+// One Kademlia instance is shared by all executions that cannot modify it:
+// onFindNode only reads it, and a DoFindNode whose peers are all reported
+// unreachable never reaches addPeersHandler. Executions that can add peers
+// (mutable = true) get a fresh instance. The service and its address book are
+// always fresh.
+var c37SharedKad *kademlia.Kad
+
+func c37NewNode(x *mc.X, sr p2p.StreamerPinger, mutable bool) *c37Node {
+	ab := c37Book(x)
+	svc := New(sr, ab, 0, logging.New(io.Discard, 0))
+	n := &c37Node{svc: svc, book: ab}
+	if mutable {
+		n.kad, n.db = c37BuildKad(x, ab, svc)
+		svc.SetAddPeersHandler(n.kad.AddPeers)
+	} else {
+		if c37SharedKad == nil {
+			c37SharedKad, _ = c37BuildKad(x, c37Book(x), nil)
+		}
+		n.kad = c37SharedKad
+		// (runs in a goroutine of the service: only record, check after the join)
+		svc.SetAddPeersHandler(func(...boson.Address) { n.sharedKadTouched = true })
+	}
+	svc.SetConfig(Config{Kad: n.kad, Base: c37Base, AllowPrivateCIDRs: false})
+	return n
 }
 
 func (n *c37Node) close() {
 	_ = n.svc.Close()
-	_ = n.db.Close()
+	if n.db != nil {
+		_ = n.db.Close()
+	}
 }
 
 // followUp: local operations that consume what a peers message created.
@@ -225,7 +257,7 @@ func TestVerifC37(t *testing.T) {
 	}
 	targets := []wire.Target{
 		{Name: "handler(hive2/findNode)", Cases: reqCases, Run: func(x *mc.X, c wire.Case) string {
-			n := c37NewNode(x, &c37Streamer{Streamer: &wire.Streamer{}})
+			n := c37NewNode(x, &c37Streamer{Streamer: &wire.Streamer{}}, false)
 			defer n.close()
 			h := n.svc.Protocol().StreamSpecs[0].Handler
 			st := wire.NewStream(c.Data)
@@ -239,7 +271,7 @@ func TestVerifC37(t *testing.T) {
 			ok := pingOK[c.Name]
 			sr := &c37Streamer{Streamer: &wire.Streamer{Reply: func(boson.Address, string, string, int) []byte { return c.Data }},
 				pingOK: func(ma.Multiaddr) bool { return ok }}
-			n := c37NewNode(x, sr)
+			n := c37NewNode(x, sr, ok)
 			defer n.close()
 			res, err := n.svc.DoFindNode(context.Background(), c37Overlay(5), c37Peer.Address, []int32{0, 1, 2}, 4)
 			added := 0
@@ -249,6 +281,9 @@ func TestVerifC37(t *testing.T) {
 				for range res {
 					added++
 				}
+			}
+			if n.sharedKadTouched {
+				x.Broken("peers added although every peer was reported unreachable")
 			}
 			n.followUp(x)
 			if err != nil {
